@@ -538,7 +538,7 @@ pub fn gen_program(r: &mut Rng) -> (&'static str, String) {
     let t = r.below(N_TEMPLATES);
     gen_program_t(r, t)
 }
-pub const N_TEMPLATES: u64 = 10;
+pub const N_TEMPLATES: u64 = 12;
 /// `gen_program` with the template chosen by the caller (`t < N_TEMPLATES`).
 pub fn gen_program_t(r: &mut Rng, t: u64) -> (&'static str, String) {
     let a = r.below(200);
@@ -679,6 +679,26 @@ fn main() -> u64 {{
     let mut k = 0; let mut j = {n};
     while true {{ if j == 0 {{ break; }} j -= 1; if j % 2 == 0 {{ continue; }} k += j; }}
     fib({n}) + l + *el + k
+}}
+"#)),
+        10 => ("script", format!(r#"script;
+abi Other {{ fn get(x: u64) -> u64; #[payable] fn pay(b: b256); }}
+fn main() -> u64 {{
+    let other = abi(Other, {h1});
+    let v = other.get({a});
+    other.pay {{ gas: {c}, coins: {b}, asset_id: {h2} }}({h1});
+    v {op} {b}
+}}
+"#)),
+        11 => ("script", format!(r#"script;
+// function names that start with an IR keyword: their blocks are labelled `<name>_<n>_block<k>` after inlining
+fn load_it(x: u64) -> u64 {{ if x {cmp} {a} {{ x + 1 }} else {{ x * 2 }} }}
+fn not_zero(x: u64) -> bool {{ if x == 0 {{ false }} else {{ true }} }}
+fn call_me(x: u64) -> u64 {{ let mut i = 0; let mut s = x; while i < {n} {{ s = s + i; i += 1; }} s }}
+fn branch_on(b: bool) -> u64 {{ if b {{ {a} }} else {{ {b} }} }}
+fn revert_if(b: bool) -> u64 {{ if b {{ revert({small}) }} else {{ {c} }} }}
+fn main() -> u64 {{
+    load_it({b}) + call_me({a}) + branch_on(not_zero({n})) + revert_if(false)
 }}
 "#)),
         _ => ("script", format!(r#"script;
